@@ -128,12 +128,8 @@ def CueTextTokenizer(cue_text: str):
 
       elif state is _State.data_cref:
         if c == ord(";"):
-          coded_entity = str(buffer)
-          decoded_entity = html.unescape(coded_entity)
-          if decoded_entity == coded_entity :
-            result.extend(buffer)
-          else:
-            result.append(decoded_entity)
+          # html.unescape() only decodes references without the terminating semicolon for a few legacy names
+          result.append(html.unescape(str(buffer) + ";"))
           state = _State.data
         elif c == EOF_MARKER:
           result.extend(buffer)
